@@ -9,7 +9,7 @@ CLAIM = ('Real UTXO-encoding code executed symbolically against reference coders
          '(3) CompressScript / DecompressScript / GetSpecialScriptSize: every script of length 0,1,22..26,34..36,66..68 with all bytes symbolic: special forms recognised exactly (P2PKH, P2SH, P2PK compressed, P2PK uncompressed when fully valid), '
          'compressed bytes equal the reference, decompression restores the identical script; every selector 0..3 with any payload decompresses to a script that compresses back to it. '
          '(4) Coin::Serialize/Unserialize and TxInUndoFormatter with TxOutCompression/ScriptCompression/AmountCompression: record layout equals the documented layout (reference decoder), deserialization returns the identical coin and consumes the record, '
-         'for the listed (height, coinbase, amount-code) header tuples, symbolic amount and symbolic script bytes of each script kind. '
+         'for the listed (height, coinbase, amount-code) header tuples, symbolic amount and symbolic script bytes of the script kinds raw / P2PKH / P2SH / P2PK-compressed (whole records with an uncompressed key do not finish; that form is covered at the CompressScript/DecompressScript level). '
          'Conditional on stubs: secp256k1 point validity/decompression (uncompressed keys), amount codec cut out of (4). Not covered: scripts longer than MAX_SCRIPT_SIZE (replaced by OP_RETURN on read), LevelDB key encoding, symbolic VARINT lengths inside whole records.')
 INT = ['cvc5int', 'cvc5int-di', 'cvc5int-bw']
 WIT = ['cvc5int', 'kissat', 'default']
@@ -29,8 +29,8 @@ def rec(kind, sl, hv, cb, cv, undo=False):
 
 
 R_Q = [rec(0, 3, 0, 0, 0), rec(1, 25, 840000, 1, '0x3fffffffffffffffULL'), rec(0, 3, 64, 0, 128, True), rec(2, 23, '0x7fffffff', 1, 127), rec(3, 35, 0, 1, 16511, True),
-       rec(4, 67, 63, 1, 128), rec(0, 25, 1, 0, 1)]
-R_T = R_Q + [rec(4, 67, 8255, 0, 16512, True), rec(0, 0, 0, 0, 0), rec(0, 67, 200000, 0, 300, True), rec(0, 200, 1, 1, 2113663), rec(1, 25, 0, 0, 0, True), rec(2, 23, 127, 0, '0x204081020407fULL', True), rec(0, 35, 64, 1, 0)]
+       rec(0, 25, 1, 0, 1)]
+R_T = R_Q + [rec(0, 0, 0, 0, 0), rec(0, 67, 200000, 0, 300, True), rec(0, 200, 1, 1, 2113663), rec(1, 25, 0, 0, 0, True), rec(2, 23, 127, 0, '0x204081020407fULL', True), rec(0, 35, 64, 1, 0)]
 HARNESSES = [
     H('amount', 'amount.cpp', 'h_amount', link=['compressor.cpp'], variants=AM, backends=INT, witness_backends=WIT, unwind=12, unwindset=AUS, timeout=400, diff_runs=12,
       functions=['CompressAmount', 'DecompressAmount (compressor.cpp)'], bounds='all amounts 0..2,100,000,000,000,000 (exponent e concrete per query, mantissa and last digit symbolic; e=4 split at mantissa 2^24)'),
